@@ -49,6 +49,7 @@ def curated(tier):
         add("functional_x", cell, cdeg=2 if cell != "tetrahedron" else 1)
         add("mathfuns", cell)
         add("conditionals", cell)
+        add("int_literals", cell)
         add("geom_all", cell, p={"itype": "cell"})
         add("cond_ties", cell, data_fixed={"w": 0.0, "c": 2.0})
         add("cond_ties", cell)
@@ -57,7 +58,13 @@ def curated(tier):
         add("multi_rule_vertex", cell)
         add("real_space", cell)
         add("quadrature_element", cell)
-    from vf.corpus import ZOO
+    from vf.corpus import ARG_PAIRS, ZOO
+
+    for k, (te, tr) in enumerate(ARG_PAIRS):
+        for cell in ("triangle", "tetrahedron") if "CR" in (te[0], tr[0]) or "bubble" in (te[0], tr[0]) else ("triangle", "quadrilateral", "interval"):
+            if cell == "interval" and ("CR" in (te[0], tr[0])):
+                continue
+            add("arg_pair", cell, p={"test": list(te), "trial": list(tr)})
 
     for cell, fam, deg, var, disc in ZOO:
         add("family_zoo", cell, cdeg=2 if (cell in ("triangle", "quadrilateral") and deg == 1) else 1, p={"family": fam, "degree": deg, "variant": var, "discontinuous": disc})
